@@ -27,6 +27,16 @@ class Default:
 DEFAULT = Default()
 
 
+def db_page_size(directory):
+    """page size of a cache database, read through an independent connection (public information)"""
+    import sqlite3 as _sq
+    con = _sq.connect(os.path.join(directory, 'cache.db'), timeout=5)
+    try:
+        return con.execute('PRAGMA page_size').fetchone()[0]
+    finally:
+        con.close()
+
+
 class Env:
     """one patched diskcache import per process"""
     _inst = None
@@ -86,7 +96,7 @@ class CacheRunner:
             self.cache = core.Cache(self.dir, disk=core.JSONDisk, **settings)
         else:
             self.cache = core.Cache(self.dir, disk_pickle_protocol=c['proto'], **settings)
-        self.page_size = self.cache._page_size
+        self.page_size = db_page_size(self.cache.directory)
         self.rec.enabled = True
         self.rec.file_ids = {}
         self.blocks = []           # open `with cache.transact()` context managers
@@ -334,13 +344,15 @@ class CacheRunner:
             elif m == 'traise':
                 n = int(op.get('n', 1))
                 f['n'] = n
-                exc = RuntimeError('abort')
+                cls_ = {'RuntimeError': RuntimeError, 'KeyboardInterrupt': KeyboardInterrupt, 'SystemExit': SystemExit}[op.get('exc', 'RuntimeError')]
+                exc = cls_('abort')
                 for _ in range(min(n, len(self.blocks))):
                     cm = self.blocks.pop()
                     try:
-                        cm.__exit__(RuntimeError, exc, None)
-                    except RuntimeError:
-                        pass
+                        cm.__exit__(cls_, exc, None)
+                    except BaseException as e_:      # noqa: the exception we threw comes back out
+                        if e_ is not exc:
+                            raise
                 res = 'n'
             elif m == 'reset':
                 f['key'] = op['key']
